@@ -32,7 +32,7 @@ from ..model import AnchorMissing, CannotAnalyse, walk_no_nested
 from ..poly import Rat, C, mk_atom, subst, lem_min, lem_max, lem_log
 from ..vg import Evaluator, vkey, spec, atoms_of, Const, merge_outcomes
 from ..effects import effects_of, reachable
-from .common import calls_to, site, key, attr_stores, kwarg, enclosing
+from .common import holds_at, calls_to, site, key, attr_stores, kwarg, enclosing
 
 EL = 'gnpy.core.elements'
 POLICY = ['target_pch_out_db', 'target_psd_out_mWperGHz', 'target_out_mWperSlotWidth']
@@ -290,8 +290,7 @@ def r5_design(ctx):
                   f'{table} is filled from {src}: a node-level policy lands in the table of another policy',
                   ast.unparse(n))
         # guarded by the presence test of the same field
-        par = getattr(n, '_parent', None)
-        g_ok = isinstance(par, ast.If) and src is not None and src in ast.unparse(par.test)
+        g_ok = src is not None and any(c.endswith(f'.{src} is not None') for c in holds_at(n))
         ctx.check('R5.population', f'{site(f, n)} guard', g_ok, key(f, f'fill-guard|{table}'),
                   f'the store into {table} is not guarded by the presence test of {src}')
     for k in POLICY:
